@@ -129,6 +129,11 @@ HasCRLFch(s) == T!Contains(s, "\r") \/ T!Contains(s, "\n")
 
 --------------------------------------------------------------------------------
 (* SelectProtocol: canhandlerequest of each configured class, first claim wins             *)
+\* wap.py: the path is the WAP prefix itself or below it (prefix followed by nothing, "/" or "?")  [7016e2c]
+BelowWap(path) == T!StartsWith(path, "/wap") /\ (Len(path) = 4 \/ T!Ch(path, 5) \in {"/", "?"})
+\* gemini.py: the query prefix matches at a path boundary only  [cce9c0c]
+IsQueryPath(path) == path = "/GEMINI-QUERY" \/ T!StartsWith(path, "/GEMINI-QUERY/")
+
 HTTPShape(line) ==
     LET w == Words(line) IN
     Len(w) = 3 /\ w[1] \in {"GET", "HEAD"} /\ T!StartsWith(w[3], "HTTP/")
@@ -148,7 +153,7 @@ ClaimsGP(r, secure, D) ==
 
 Claims(p, r, D) ==
     CASE p = "WAPProtocol" ->
-            IF ~r.tls /\ HTTPShape(r.line) /\ (T!StartsWith(Words(r.line)[2], "/wap") \/ r.wap) THEN "yes" ELSE "no"
+            IF ~r.tls /\ HTTPShape(r.line) /\ (BelowWap(Words(r.line)[2]) \/ r.wap) THEN "yes" ELSE "no"
       [] p = "GeminiProtocol" -> IF r.tls /\ T!StartsWith(r.line, "gemini://") THEN "yes" ELSE "no"
       [] p = "HTTPProtocol"   -> IF ~r.tls /\ HTTPShape(r.line) THEN "yes" ELSE "no"
       [] p = "HTTPSProtocol"  -> IF r.tls /\ HTTPShape(r.line) THEN "yes" ELSE "no"
@@ -205,7 +210,7 @@ ParseSel(p, r) ==
     CASE fam \in {"G", "GP"} -> [sel |-> SlashNorm(Fields(r.line)[1]), special |-> "none", aux |-> ""]
       [] fam \in {"H", "W"} ->
             LET path0 == Words(r.line)[2]
-                path  == IF fam = "W" /\ T!StartsWith(path0, "/wap") THEN SubSeq(path0, 5, Len(path0)) ELSE path0
+                path  == IF fam = "W" /\ BelowWap(path0) THEN SubSeq(path0, 5, Len(path0)) ELSE path0
                 s     == SlashNorm(Unquote(T!Split(path, "?")[1]))
             IN IF T!StartsWith(s, IconPrefix) /\ SubSeq(s, Len(IconPrefix) + 1, Len(s)) \in Icons
                THEN [sel |-> s, special |-> "icon", aux |-> ""]
@@ -213,7 +218,7 @@ ParseSel(p, r) ==
       [] fam = "GEM" ->
             LET g == GemParts(r.line) IN
             IF g.bad THEN [sel |-> "", special |-> "badurl", aux |-> ""]
-            ELSE IF T!StartsWith(g.path, QueryPrefix)
+            ELSE IF IsQueryPath(g.path)
                  THEN (IF g.query = "" THEN [sel |-> "", special |-> "input10", aux |-> ""]
                        ELSE [sel |-> "", special |-> "input30",
                              aux |-> SubSeq(g.path, Len(QueryPrefix) + 1, Len(g.path)) \o "?" \o g.query])
